@@ -43,7 +43,7 @@ type Worker struct {
 	stripped  bool
 	schedule  []string
 	refDirty  [][2]string // (class, checker): process-wide state changed by a reference run
-	ref       *Corpus // independent second load, used only by the reference model
+	ref       *Corpus     // independent second load, used only by the reference model
 	refTable  *RefTable
 	infos     []*linter.CheckerInfo
 	infoBy    map[string]*linter.CheckerInfo
@@ -251,11 +251,11 @@ func (w *Worker) run() error {
 		var e error
 		if job.RefPath == "" || job.Mode == "ref" {
 			// without a precomputed table the reference corpus is needed right away
-			w.ref, e = LoadCorpus(job.RepoDir, need, extraCorpus())
+			w.ref, e = LoadCorpus(job.RepoDir, need, extraCorpus(), w.twinOrder())
 		}
 		refc <- e
 	}()
-	w.corpus, err = LoadCorpus(job.RepoDir, need, extraCorpus())
+	w.corpus, err = LoadCorpus(job.RepoDir, need, extraCorpus(), FsetOrder{})
 	if err != nil {
 		return err
 	}
@@ -373,7 +373,7 @@ func (w *Worker) precompute(rc *simapi.RunConfig) {
 		return
 	}
 	wl := w.parseWorkload(rc.Args)
-	w.refForVisits(wl, rc.Visits)
+	w.refForVisits(wl, rc.Visits, strings.HasPrefix(rc.Kind, "cli-"))
 	needCal := false
 	for _, v := range rc.Variants {
 		if len(v.CPFrac) > 0 {
